@@ -605,20 +605,20 @@ func (c *simCluster) handleProduce(b *simBroker, r *ProduceRequest, wire int) (e
 			}
 			kinds = append(kinds, []interface{}{int(bt.part), kind})
 		case "dupwin":
-			c.rec.Ev("dedup", kv{"req": n, "part": int(bt.part), "decision": "dupwin", "base": int(dupBase)})
+			c.rec.Ev("dedup", kv{"req": n, "part": int(bt.part), "decision": "dupwin", "base": int(dupBase), "epoch": int(bt.epoch), "seq": int(bt.seq), "n": len(bt.recs)})
 			resp.AddTopicPartition(simTopic, bt.part, ErrNoError)
 			resp.Blocks[simTopic][bt.part].Offset = dupBase
 			kinds = append(kinds, []interface{}{int(bt.part), "dupwin"})
 		case "dupold":
-			c.rec.Ev("dedup", kv{"req": n, "part": int(bt.part), "decision": "dupold", "base": -1})
+			c.rec.Ev("dedup", kv{"req": n, "part": int(bt.part), "decision": "dupold", "base": -1, "epoch": int(bt.epoch), "seq": int(bt.seq), "n": len(bt.recs)})
 			resp.AddTopicPartition(simTopic, bt.part, ErrDuplicateSequenceNumber)
 			kinds = append(kinds, []interface{}{int(bt.part), "dupold"})
 		case "fenced":
-			c.rec.Ev("dedup", kv{"req": n, "part": int(bt.part), "decision": "fenced", "base": -1})
+			c.rec.Ev("dedup", kv{"req": n, "part": int(bt.part), "decision": "fenced", "base": -1, "epoch": int(bt.epoch), "seq": int(bt.seq), "n": len(bt.recs)})
 			resp.AddTopicPartition(simTopic, bt.part, ErrInvalidProducerEpoch)
 			kinds = append(kinds, []interface{}{int(bt.part), "fenced"})
 		default:
-			c.rec.Ev("dedup", kv{"req": n, "part": int(bt.part), "decision": "ooo", "base": -1})
+			c.rec.Ev("dedup", kv{"req": n, "part": int(bt.part), "decision": "ooo", "base": -1, "epoch": int(bt.epoch), "seq": int(bt.seq), "n": len(bt.recs)})
 			resp.AddTopicPartition(simTopic, bt.part, ErrOutOfOrderSequenceNumber)
 			kinds = append(kinds, []interface{}{int(bt.part), "ooo"})
 		}
